@@ -362,3 +362,62 @@ Proof.
     { apply filter_ext. intro i. rewrite Nat.sub_0_r. reflexivity. }
     rewrite Efil in Q. exact Q.
 Qed.
+
+Lemma maj23_backed s k :
+  VSInv s -> vs_maj23 s = Some k ->
+  exists bv, lookup_bv k (vs_byblock s) = Some bv /\ slots_ok (vote_ok s k) (bv_votes bv) /\
+    NoDup (backers bv) /\ 3 * backers_power (vs_vals s) bv > 2 * total_power (vs_vals s).
+Proof.
+  intros [IB IM] Hm. destruct (IM k Hm) as (bv & L & Q). exists bv. split; [exact L|].
+  destruct (IB k bv L) as (A & B & C). split; [exact C|]. split.
+  - unfold backers. apply NoDup_filter. apply seq_NoDup.
+  - apply quorum_strict. unfold backers_power, backers. rewrite B in Q. rewrite slots_power_as_sum in Q.
+    assert (Efil : filter (fun i => match nth (i - 0) (bv_votes bv) None with Some _ => true | None => false end) (List.seq 0 (length (bv_votes bv)))
+                 = filter (fun i => match nth i (bv_votes bv) None with Some _ => true | None => false end) (List.seq 0 (length (bv_votes bv)))).
+    { apply filter_ext. intro i. rewrite Nat.sub_0_r. reflexivity. }
+    rewrite Efil in Q. exact Q.
+Qed.
+
+(* all recorded votes come from a given list (the votes delivered so far) *)
+Definition VotesIn (D : list vote) (s : voteset) : Prop :=
+  forall k bv, lookup_bv k (vs_byblock s) = Some bv -> slots_ok (fun _ v => In v D) (bv_votes bv).
+
+Lemma VotesIn_mono D D' s : (forall v, In v D -> In v D') -> VotesIn D s -> VotesIn D' s.
+Proof. intros Hs H k bv L i v Hi. apply Hs. eapply H; eassumption. Qed.
+
+Lemma new_voteset_votes_in D h r ty vals : VotesIn D (new_voteset h r ty vals).
+Proof. intros k bv L. cbn in L. discriminate. Qed.
+
+Lemma bv_add_votes_in D bv v power :
+  In v D -> slots_ok (fun _ w => In w D) (bv_votes bv) -> slots_ok (fun _ w => In w D) (bv_votes (bv_add bv v power)).
+Proof.
+  intros Hv H. unfold bv_add. destruct (get_slot (bv_votes bv) (v_idx v)); [exact H|].
+  cbn. apply slots_ok_set; assumption.
+Qed.
+
+Lemma commit_entry_votes_in D s votes1 sum1 key old bv' :
+  VotesIn D s -> slots_ok (fun _ w => In w D) (bv_votes bv') -> VotesIn D (commit_entry s votes1 sum1 key old bv').
+Proof.
+  intros H Hb k bv L. cbn in L. destruct (blockid_eqb k key) eqn:E.
+  - apply blockid_eqb_eq in E. subst k. rewrite lookup_update_same in L. injection L as <-. exact Hb.
+  - apply blockid_eqb_neq in E. rewrite lookup_update_other in L by exact E. eapply H; exact L.
+Qed.
+
+Lemma vs_add_votes_in D s v : In v D -> VotesIn D s -> VotesIn D (fst (fst (vs_add s v))).
+Proof.
+  intros Hv H. unfold vs_add.
+  destruct (v_idx v <? 0); [exact H|]. destruct ((v_addr v =? 0)%N); [exact H|].
+  destruct (negb _); [exact H|].
+  destruct (nth_error (vs_vals s) (Z.to_nat (v_idx v))) as [[addr power]|]; [|exact H].
+  destruct (negb (v_addr v =? addr)%N); [exact H|].
+  destruct (get_vote s (v_idx v) (v_bid v)) as [e|]; [destruct ((v_sig e =? v_sig v)%N); exact H|].
+  destruct (negb (v_ok v)); [exact H|].
+  unfold add_verified.
+  destruct (lookup_bv (v_bid v) (vs_byblock s)) as [bv|] eqn:Track.
+  - destruct (_ && negb (bv_peermaj bv)); cbn [fst].
+    + intros k b L. cbn in L. eapply H; exact L.
+    + apply commit_entry_votes_in; [exact H | apply bv_add_votes_in; [exact Hv | eapply H; exact Track]].
+  - destruct (match get_slot (vs_votes s) (v_idx v) with Some _ => true | None => false end); cbn [fst].
+    + intros k b L. cbn in L. eapply H; exact L.
+    + apply commit_entry_votes_in; [exact H | apply bv_add_votes_in; [exact Hv | cbn; apply slots_ok_repeat]].
+Qed.
